@@ -510,6 +510,22 @@ def gen_site_cases(seed, n, start_id=0):
         g.nojsx = True
         g.dir_heavy = (i % 4 == 3)     # every fourth probe is mostly directives in all their spellings
         el = g.elem(2) if g.r.chance(9, 10) else "<>" + g.children(2) + "</>"
+        if i % 8 == 5:
+            # v-model in every host x name form x value form (C05's own quantifier), few distractions
+            r = g.r
+            host = r.pick(["Comp", "NS.Item", "U", "input", "input type=\"checkbox\"", "input type=\"radio\"", "input type={t}",
+                           "select", "textarea", "div", "KeepAlive"])
+            tag = host.split(" ")[0]
+            ms = []
+            for _ in range(1 + r.below(2)):
+                name = r.pick(["v-model", "vModel", "v-model:title", "v-model_trim", "v-model_trim_lazy", "v-model:title_trim", "vModel:value_a"])
+                target = r.pick(["val", "foo.bar", "a[0]", "props.m", "this.v"])
+                value = r.pick(["{T}", "{T}", "[{T}]", "[{T}, 'title']", "[{T}, ['trim']]", "[{T}, 'title', ['trim', 'lazy']]", "[{T}, arg]",
+                                "[{T}, 'a-b', []]", "[{T}, null, ['x']]"]).replace("{T}", target)
+                ms.append("%s={%s}" % (name, value))
+            extra = r.pick(["", "", "id=\"i\"", "class={a}", "onUpdate:modelValue={fn}", "{...y}"])
+            g.f("vmodel-matrix")
+            el = "<%s %s %s />" % (host, " ".join(ms), extra) if r.chance(1, 2) else "<%s %s %s>{a}</%s>" % (host, " ".join(ms), extra, tag)
         src = PROLOGUE + "const __site = " + el + ";\n"
         out.append({"id": start_id + i, "src": src, "syntax": "jsx", "options": g.options(),
                     "stream": "site", "feat": sorted(g.feat)})
@@ -613,6 +629,30 @@ def gen_scope_cases(seed, n, start_id=0):
         opts.pop("resolveType", None)
         out.append({"id": start_id + i, "src": "".join(parts), "syntax": "jsx", "options": json.dumps(opts),
                     "stream": "scope", "keep_json": True, "feat": sorted(g.feat)})
+    return out
+
+
+def gen_matrix_cases(start_id=0):
+    """exhaustive small matrices (deterministic): v-model hosts x names x values, directive names x values"""
+    out = []
+    def add(el, k):
+        opts = [{}, {"mergeProps": False, "optimize": True}, {"optimize": True}][k % 3]
+        out.append({"id": start_id + len(out), "src": PROLOGUE + "const __site = " + el + ";\n", "syntax": "jsx",
+                    "options": json.dumps(opts), "stream": "site", "feat": ["matrix"]})
+    k = 0
+    for host in ["Comp", "input", "select"]:
+        for name in ["v-model", "vModel", "v-model:title", "v-model_trim", "v-model_trim_lazy", "v-model:title_trim", "vModel:value_a"]:
+            for value in ["val", "[val]", "[foo.bar, 'title']", "[val, ['trim']]", "[val, 'title', ['trim', 'lazy']]", "[val, arg]",
+                          "[val, 'a-b', []]", "[val, null, ['x']]", "[a[0], 'title', y]"]:
+                add("<%s %s={%s} id=\"i\" />" % (host, name, value), k); k += 1
+    for host in ["div", "Comp"]:
+        for name in ["v-custom", "vCus", "v-custom:arg", "v-custom_m", "v-custom:arg_m_n", "v-validate", "v-show", "vShow:x_y"]:
+            for value in ["", "=\"str\"", "={a}", "={[a]}", "={[a, b]}", "={[a, ['m']]}", "={[a, b, ['m', 'n']]}", "={[a, 'lit', ['m']]}"]:
+                add("<%s %s%s title=\"t\">x</%s>" % (host, name, value, host), k); k += 1
+    for host in ["div", "Comp"]:
+        for name in ["v-html", "v-text", "vHtml", "v-html:arg_m"]:
+            for value in ["=\"s\"", "={a}", "={[a]}", "={[a, b]}"]:
+                add("<%s %s%s />" % (host, name, value), k); k += 1
     return out
 
 
@@ -757,7 +797,7 @@ class TGen(Gen):
     def enc(self, M, d):
         """a type expression denoting exactly the prop map M"""
         r = self.r
-        ops = ["lit"] if d <= 0 else ["lit", "alias", "iface", "extends", "merge", "inter", "paren", "partial", "partial", "required", "required",
+        ops = ["lit"] if d <= 0 else ["lit", "alias", "iface", "extends", "extends_alias", "merge", "inter", "paren", "partial", "partial", "required", "required",
                                       "pick", "pick", "omit", "omit", "index", "chain"]
         op = r.pick(ops)
         force = getattr(self, "force_op", None)
@@ -791,6 +831,12 @@ class TGen(Gen):
             m1, m2 = self.split(M)
             a, b = self.fresh("I"), self.fresh("I")
             self.decl("interface %s { %s }" % (b, self.members(m2)))
+            self.decl("interface %s extends %s { %s }" % (a, b, self.members(m1)))
+            return a
+        if op == "extends_alias":
+            m1, m2 = self.split(M)
+            a, b = self.fresh("I"), self.fresh("A")
+            self.decl("type %s = { %s };" % (b, self.members(m2)))
             self.decl("interface %s extends %s { %s }" % (a, b, self.members(m1)))
             return a
         if op == "merge":
@@ -863,7 +909,7 @@ class TGen(Gen):
         pool = ["change", "update:modelValue", "before-close", "a", "b"]
         for _ in range(r.below(4)):
             names.append(pool.pop(r.below(len(pool))))
-        form = r.below(7)
+        form = r.below(9)
         self.f("emits:%d" % form)
         if not names:
             return r.pick(["{}", "() => void"]), []
@@ -881,6 +927,16 @@ class TGen(Gen):
             return nm, names[1:] + names[:1]
         if form == 4:
             return "{ " + "; ".join("'%s': [v: number]" % n for n in names) + " }", names
+        if form in (7, 8):
+            # an interface whose parent is a type alias of an object type (call signatures / property syntax)
+            nm = self.fresh("E"); b = self.fresh("E")
+            if form == 7:
+                self.decl("type %s = { (e: '%s'): void };" % (b, names[0]))
+                self.decl("interface %s extends %s { %s }" % (nm, b, "; ".join("(e: '%s'): void" % n for n in names[1:])))
+            else:
+                self.decl("type %s = { '%s': [v: number] };" % (b, names[0]))
+                self.decl("interface %s extends %s { %s }" % (nm, b, "; ".join("'%s': []" % n for n in names[1:])))
+            return nm, names[1:] + names[:1]
         if form == 5:
             ev = self.fresh("Ev"); self.decl("type %s = %s;" % (ev, lits))
             return "(e: %s) => void" % ev, names
